@@ -28,6 +28,11 @@ def _arm_watchdog(ctx):
             sys.stdout.write("INFRA property=%s hard time limit exceeded\n" % ctx.prop)
             sys.stdout.flush()
         finally:
+            try:
+                import common as _c
+                _c._kill_live_drivers()
+            except Exception:
+                pass
             os._exit(2)
     t = threading.Timer(limit, fire)
     t.daemon = True
@@ -51,6 +56,12 @@ def main():
     sys.path.insert(0, HERE)
     os.environ.setdefault("PYSMT_VERIF", "1")
     import common
+    import signal as _signal
+
+    def _on_term(signum, frame):        # e.g. `timeout` around the check: leave no Lean driver behind
+        common._kill_live_drivers()
+        os._exit(2)
+    _signal.signal(_signal.SIGTERM, _on_term)
     tier = args.tier if args.tier in ("quick", "thorough") else "quick"
     try:
         seed = int(os.environ.get("VERIF_SEED", "0"))
